@@ -16,6 +16,7 @@ Driver requests for L3–L5 (container fragment):
             | (D cst (gc…) <g1> <gd> (<attr>…))                       (select `e.a.b`, no default)
             | (O cst (gc…) <g1> <gd> (<attr>…) (gc…) <g2> <g3> cst)    (select with `or` default)
             | (F1 <name> (gc…) <g1> (gc…) <g2> cst)                   (lambda `x: body`)
+            | (U <op> (gc…) <g> cst)                                  (unary operator)
     item  ::= (c <gap> <text>) | (e <gap> cst)
             | (b <gap> <name> (gc…) <g1> (gc…) <g2> cst (gc…) <g3>)
     gc    ::= (<gap> <text>)
@@ -58,6 +59,8 @@ partial def decCst : SExp → Option Cst
               (← decText g3) (← decCst b))
   | .list [.atom "D", e, .list c1, .atom g1, .atom gd, .list attrs] => do
       pure (.sel (← decCst e) (← decGC c1) (← decText g1) (← decText gd) (← decTexts attrs))
+  | .list [.atom "U", .atom op, .list c, .atom g, e] => do
+      pure (.un (← decText op) (← decGC c) (← decText g) (← decCst e))
   | .list [.atom "F1", .atom n, .list c1, .atom g1, .list c2, .atom g2, b] => do
       pure (.lam (← decText n) (← decGC c1) (← decText g1) (← decGC c2) (← decText g2) (← decCst b))
   | .list [.atom "O", e, .list c1, .atom g1, .atom gd, .list attrs, .list c2, .atom g2, .atom g3, d] => do
@@ -92,6 +95,7 @@ partial def encCst : Cst → SExp
     .list [.atom "K", .atom (if w then "w" else "a"), encGC c1, sText g1, encCst h, encGC c2, sText g2, encGC c3,
       sText g3, encCst b]
   | .sel e c1 g1 gd attrs => .list [.atom "D", encCst e, encGC c1, sText g1, sText gd, .list (attrs.map sText)]
+  | .un op c g e => .list [.atom "U", sText op, encGC c, sText g, encCst e]
   | .lam n c1 g1 c2 g2 b => .list [.atom "F1", sText n, encGC c1, sText g1, encGC c2, sText g2, encCst b]
   | .selOr e c1 g1 gd attrs c2 g2 g3 d =>
     .list [.atom "O", encCst e, encGC c1, sText g1, sText gd, .list (attrs.map sText), encGC c2, sText g2, sText g3,
